@@ -9,6 +9,7 @@ package gobinlog
 
 import (
 	"bytes"
+	"context"
 	"fmt"
 	"io"
 	"net"
@@ -16,6 +17,8 @@ import (
 	"strings"
 	"sync"
 	"time"
+
+	"github.com/Breeze0806/mysql"
 )
 
 type vEnv struct {
@@ -24,6 +27,10 @@ type vEnv struct {
 }
 
 var vhLibBase int
+
+var vhPipeOnce sync.Once
+var vhPipeMu sync.Mutex
+var vhPipeMaster *vFakeMaster
 
 func vhStartEnv(sc *vScript) *vEnv {
 	vCurScript = sc
@@ -43,6 +50,30 @@ func (e *vEnv) dsn() string {
 	}
 	if e.sc.failFactory {
 		return "u:p@tcp(127.0.0.1:1)/db?timeout=1s" // nothing listens there
+	}
+	if e.sc.pipe {
+		// in-memory transport (net.Pipe): a write to a closed peer fails at once, which is how a
+		// failing dump request is staged deterministically
+		vhPipeOnce.Do(func() {
+			mysql.RegisterDialContext("vhpipe", func(ctx context.Context, addr string) (net.Conn, error) {
+				vhPipeMu.Lock()
+				fm := vhPipeMaster
+				vhPipeMu.Unlock()
+				if fm == nil {
+					return nil, fmt.Errorf("no fake master")
+				}
+				c1, c2 := vhMemPipe()
+				fm.mu.Lock()
+				fm.conns = append(fm.conns, c2)
+				fm.mu.Unlock()
+				go fm.serve(c2)
+				return c1, nil
+			})
+		})
+		vhPipeMu.Lock()
+		vhPipeMaster = e.fm
+		vhPipeMu.Unlock()
+		return "u:p@vhpipe(fake)/db"
 	}
 	return "u:p@tcp(" + e.fm.addr + ")/db"
 }
@@ -258,6 +289,9 @@ func (fm *vFakeMaster) serve(c net.Conn) {
 			if fmWrite(c, 1, fmOK) != nil {
 				return
 			}
+			if fm.sc.failNotice {
+				return // the master goes away before the dump request: the client's write fails (pipe transport)
+			}
 		case 0x12: // COM_BINLOG_DUMP
 			if len(p) < 11 {
 				return
@@ -311,3 +345,74 @@ func (fm *vFakeMaster) serve(c net.Conn) {
 		}
 	}
 }
+
+// ---- in-memory transport with buffering (like a socket; net.Pipe is synchronous and would make
+// the driver's COM_QUIT block while the master is still writing) ----
+
+type vhMemQueue struct {
+	mu     sync.Mutex
+	cond   *sync.Cond
+	buf    []byte
+	closed bool // no more data will be written (writer side closed) or reader went away
+}
+
+type vhMemConn struct {
+	rd, wr *vhMemQueue
+	once   sync.Once
+}
+
+func vhMemPipe() (net.Conn, net.Conn) {
+	a, b := &vhMemQueue{}, &vhMemQueue{}
+	a.cond, b.cond = sync.NewCond(&a.mu), sync.NewCond(&b.mu)
+	return &vhMemConn{rd: a, wr: b}, &vhMemConn{rd: b, wr: a}
+}
+
+func (c *vhMemConn) Read(p []byte) (int, error) {
+	q := c.rd
+	q.mu.Lock()
+	defer q.mu.Unlock()
+	for len(q.buf) == 0 && !q.closed {
+		q.cond.Wait()
+	}
+	if len(q.buf) == 0 {
+		return 0, io.EOF
+	}
+	n := copy(p, q.buf)
+	q.buf = q.buf[n:]
+	return n, nil
+}
+
+func (c *vhMemConn) Write(p []byte) (int, error) {
+	q := c.wr
+	q.mu.Lock()
+	defer q.mu.Unlock()
+	if q.closed {
+		return 0, io.ErrClosedPipe // the peer has gone away: the write fails at once
+	}
+	q.buf = append(q.buf, p...)
+	q.cond.Broadcast()
+	return len(p), nil
+}
+
+func (c *vhMemConn) Close() error {
+	c.once.Do(func() {
+		for _, q := range []*vhMemQueue{c.rd, c.wr} {
+			q.mu.Lock()
+			q.closed = true
+			q.cond.Broadcast()
+			q.mu.Unlock()
+		}
+	})
+	return nil
+}
+
+type vhMemAddr struct{}
+
+func (vhMemAddr) Network() string { return "vhpipe" }
+func (vhMemAddr) String() string  { return "fake" }
+
+func (c *vhMemConn) LocalAddr() net.Addr                { return vhMemAddr{} }
+func (c *vhMemConn) RemoteAddr() net.Addr               { return vhMemAddr{} }
+func (c *vhMemConn) SetDeadline(t time.Time) error      { return nil }
+func (c *vhMemConn) SetReadDeadline(t time.Time) error  { return nil }
+func (c *vhMemConn) SetWriteDeadline(t time.Time) error { return nil }
